@@ -1052,7 +1052,8 @@ def _transmission_failures(n, seed, limit=3):
         beam /= np.linalg.norm(beam)
         det = rng.normal(size=(4, 3))
         det = det / np.linalg.norm(det, axis=1)[:, None] * 2.0
-        wl = sc.array(dims=['wavelength'], values=[0.5, 2.0, 8.0], unit='angstrom')
+        # (in whatever order the caller lists them: ascending, and the two cyclic orders that are not their own inverse)
+        wl = sc.array(dims=['wavelength'], values=np.roll([0.5, 2.0, 8.0], i % 3), unit='angstrom')
         sp = atoms.ScatteringParams.for_isotope('V')
         bad = None
         try:
